@@ -412,7 +412,12 @@ def c20_program(args):
         keys = json.load(open(os.path.join(keydir, "keys.json")))
         focus = c20_focus(pi)
         nkeys = focus["nkeys"] if focus else rnd.randrange(1, 5)
+        allkeys = keys
         keys = rnd.sample(keys, min(nkeys, len(keys)))
+        if focus and focus.get("first_key"):
+            pref = [k for k in allkeys if k["file"].startswith(focus["first_key"])]
+            if pref:
+                keys = [pref[0]] + [k for k in keys if k["keyid"] != pref[0]["keyid"]][:nkeys - 1]
         work = os.path.join(base, "work")
         os.makedirs(work)
         use_tmpfs = rnd.random() < 0.35 and not focus
@@ -439,8 +444,8 @@ def c20_program(args):
             if rnd.random() < 0.15:
                 plan = plan[:rnd.randrange(1, len(plan))]
             for _ in range(rnd.randrange(2, 10)):
-                nxt = rnd.choice(["add-key", "add-key", "remove-key", "set-threshold", "set-threshold", "set-version", "bump-version", "expire", "sign", "sign", "sign-missing-key", "init"])
-                if nxt not in ("sign", "sign-missing-key", "init") and rnd.random() < 0.5:
+                nxt = rnd.choice(["add-key", "add-key", "remove-key", "set-threshold", "set-threshold", "set-version", "bump-version", "expire", "sign", "sign", "sign-ignore", "sign-missing-key", "init"])
+                if nxt not in ("sign", "sign-ignore", "sign-missing-key", "init") and rnd.random() < 0.5:
                     plan.append("sign")
                 plan.append(nxt)
         for step in plan:
@@ -505,13 +510,13 @@ def c20_program(args):
                     expect = None
                 else:
                     expect = lambda m, when=when: dict(m, expires=(when if when.endswith("Z") else None))
-            elif step in ("sign", "sign-missing-key"):
+            elif step in ("sign", "sign-ignore", "sign-missing-key"):
                 ks = [keys[i % len(keys)] for i in par["keys"]] if "keys" in par else rnd.sample(keys, rnd.randrange(1, len(keys) + 1))
                 files = [os.path.join(keydir, k["file"]) for k in ks]
                 if step == "sign-missing-key":
                     files.append(os.path.join(keydir, "does-not-exist.pem"))
-                cmd = ["root", "sign", path] + sum([["-k", f] for f in files], [])
-                expect = "sign"
+                cmd = ["root", "sign", path] + sum([["-k", f] for f in files], []) + (["--ignore-threshold"] if step == "sign-ignore" else [])
+                expect = "sign-ignore" if step == "sign-ignore" else "sign"
             if cmd:
                 program.append((cmd, expect, step if isinstance(step, str) else "add-key"))
         res["sample"] = {"keys": [k["file"] for k in keys], "tmpfs": bool(mounted), "commands": [" ".join(os.path.basename(a) if a.startswith("/") else a for a in c[0]) for c in program]}
@@ -580,7 +585,7 @@ def c20_program(args):
                         d1 = json.loads(after.decode())
                         s1 = d1["signed"]
                         ok_new = (s1.get("_type") == "root" and all(hashlib.sha256(canon(k)).hexdigest() == kid.lower() for kid, k in s1["keys"].items())
-                                  and (name in ("sign", "sign-missing-key") or not d1.get("signatures")))
+                                  and (name in ("sign", "sign-ignore", "sign-missing-key") or not d1.get("signatures")))
                     except (ValueError, KeyError, TypeError, AttributeError):
                         ok_new = False
                     if not ok_new:
@@ -633,6 +638,13 @@ def c20_program(args):
                     facts[k] = f2.get(k)
             doc = json.loads(after.decode())
             s = doc["signed"]
+            if expect == "sign-ignore":
+                # the statement asks nothing of the signatures here; the content must stay as it was
+                if before is not None and canon(json.loads(before.decode())["signed"]) != canon(s):
+                    res["violations"].append(dict(ctx, key="sign-changed-content", detail="signing (ignore-threshold) altered the signed portion"))
+                    break
+                res["states"].add(("ok", name, fault))
+                continue
             if expect == "sign":
                 if model is not None:
                     if before is not None and canon(json.loads(before.decode())["signed"]) != canon(s):
@@ -723,9 +735,12 @@ def c20_focus(pi):
     if pi < 4:
         nk = 2 + pi % 2
         few = [0] if pi < 2 else list(range(nk - 1))
-        steps = [{"op": "set-threshold", "role": "root", "t": nk}, {"op": "sign", "keys": few}, {"op": "sign", "keys": list(range(nk))},
-                 {"op": "bump-version"}, {"op": "sign", "keys": few}, {"op": "sign", "keys": list(range(nk))}]
-        return {"nkeys": nk, "skeleton_keys": nk, "steps": steps}
+        steps = [{"op": "set-threshold", "role": "root", "t": nk}, {"op": "sign", "keys": few}, {"op": "sign-ignore", "keys": few}, {"op": "sign", "keys": few},
+                 {"op": "sign", "keys": list(range(nk))},
+                 {"op": "bump-version"}, {"op": "sign-ignore", "keys": few}, {"op": "sign", "keys": few}, {"op": "sign", "keys": few}, {"op": "sign", "keys": list(range(nk))}]
+        # the first key is RSA or ECDSA (randomised signatures: signing twice gives two different
+        # signature values for one key), alternating
+        return {"nkeys": nk, "skeleton_keys": nk, "steps": steps, "first_key": ["rsa", "ecdsa"][pi % 2]}
     return None
 
 
@@ -757,7 +772,7 @@ def run_c20(tier, replay=None):
     with multiprocessing.Pool(THREADS) as pool:
         results = pool.map(c20_program, [(i, SEED, tier) for i in range(n)])
     return report("C20", tier, results, known, t0,
-                  rule="12 directed programs first (each content-changing subcommand right after a successful sign, twice with a re-sign in between; sign with fewer keys than a root threshold of 2 or 3), then seeded command programs: skeleton init / add-key per key / thresholds / sign (sometimes cut short) followed by 2..9 random `tuftool root` subcommands (init, add-key, remove-key, set-threshold, set-version, bump-version, expire, sign), content-changing ones preceded by a sign half of the time, over 1..4 keys (RSA, ECDSA, Ed25519), including commands that must fail (missing key file, threshold 0, version 0 / 2^64, unparsable date, unmet threshold); inside a seeded third of the commands one fault: every rename/link call fails (EIO/EACCES), every unlink fails, fsync fails, opening root.json fails, the process is killed on entry to the publishing rename or to its k-th write, or the directory sits on a tmpfs that is full or nearly full (short writes, ENOSPC); non-trivial = distinct (command, fault, outcome) triples in which a fault was active; distinct = the same triples",
+                  rule="12 directed programs first (each content-changing subcommand right after a successful sign, twice with a re-sign in between; sign with fewer keys than a root threshold of 2 or 3, also repeatedly and after a sign --ignore-threshold by the same RSA or ECDSA key), then seeded command programs: skeleton init / add-key per key / thresholds / sign (sometimes cut short) followed by 2..9 random `tuftool root` subcommands (init, add-key, remove-key, set-threshold, set-version, bump-version, expire, sign, sign --ignore-threshold), content-changing ones preceded by a sign half of the time, over 1..4 keys (RSA, ECDSA, Ed25519), including commands that must fail (missing key file, threshold 0, version 0 / 2^64, unparsable date, unmet threshold); inside a seeded third of the commands one fault: every rename/link call fails (EIO/EACCES), every unlink fails, fsync fails, opening root.json fails, the process is killed on entry to the publishing rename or to its k-th write, or the directory sits on a tmpfs that is full or nearly full (short writes, ENOSPC); non-trivial = distinct (command, fault, outcome) triples in which a fault was active; distinct = the same triples",
                   level="exploration",
                   assumptions=["outcome-based oracle only (exit status vs file content), because tuftool runs a multi-thread runtime",
                                "signature validity is decided by the tough library (itself checked by C01) and, for all-Ed25519 root key sets, independently by aws-lc over the reference canonical form",
